@@ -99,13 +99,17 @@ package utils
 //@   ensures[C03:interim-does-not-commit] 100 <= status && status <= 199 ==> sent == 0 && w.wroteHeader == old(w.wroteHeader) && w.header == old(w.header)
 //@   ensures[C03:second-call-is-noop] old(w.wroteHeader) ==> sent == 0 && w.header == old(w.header) && w.trailer == old(w.trailer)
 //@   ensures[C05:offered-inside-writeheader] !old(w.wroteHeader) && !(100 <= status && status <= 199) ==> w.wroteHeader && (sent == 1 || aborted)
+//@   ensures[C03:writer-state] w.header != nil && w.bodyWriter == old(w.bodyWriter) && w.bodyReader == old(w.bodyReader) && w.respChan == old(w.respChan) && w.r == old(w.r)
+//@   ensures[C03:fresh-maps-after-commit] !old(w.wroteHeader) && !(100 <= status && status <= 199) ==> w.trailer != nil && w.trailer != w.header && canonKeys(w.header) && canonKeys(w.trailer) && forall_str(t, in(t, w.trailer) ==> !mayDrop(t)) && forall_str(k, in(k, w.header) ==> in(k, old(w.header)))
 //@   loop 1
 //@     assigns mapof(w.trailer)
+//@     invariant[C03:t-canon-outer] canonKeys(w.trailer)
 //@     invariant[C03:t-decl-outer] w.trailer != nil && w.trailer != old(w.header) && w.header == old(w.header) && !allocated0(w.trailer)
 //@     invariant[C03:t-keys-outer] forall_str(t, in(t, w.trailer) <==> old(declared(values(w.header, "Trailer"), t, idx + 1, -1)))
 //@     invariant[C03:t-empty-outer] forall_str(t, in(t, w.trailer) ==> len(w.trailer[t]) == 0)
 //@   loop 2
 //@     assigns mapof(w.trailer)
+//@     invariant[C03:t-canon-inner] canonKeys(w.trailer)
 //@     invariant[C03:t-decl-inner] w.trailer != nil && w.trailer != old(w.header) && w.header == old(w.header) && !allocated0(w.trailer) && 0 <= idx1 && idx1 < old(len(values(w.header, "Trailer"))) && v == old(values(w.header, "Trailer")[idx1])
 //@     invariant[C03:t-keys-inner] forall_str(t, in(t, w.trailer) <==> old(declared(values(w.header, "Trailer"), t, idx1, idx)))
 //@     invariant[C03:t-empty-inner] forall_str(t, in(t, w.trailer) ==> len(w.trailer[t]) == 0)
@@ -122,3 +126,50 @@ package utils
 //@     invariant[C03:v-others-b] forall_str(k2, k2 != k && visited[k2] && !mayDrop(k2) && len(old(w.header)[k2]) > 0 ==> in(k2, header))
 //@     invariant[C03:v-others-c] forall_str(k2, k2 != k && in(k2, header) ==> len(header[k2]) == len(old(w.header)[k2]))
 //@     invariant[C03:v-this] (idx >= 0 ==> in(k, header)) && (idx == -1 ==> !in(k, header)) && (in(k, header) ==> len(header[k]) == idx + 1)
+
+// Write: commits with 200 if nothing was committed yet, then hands exactly this chunk to the body pipe in the same
+// call - nothing is retained or accumulated (C05), bytes are passed unchanged (C03).
+//@ func (*streamingResponseWriter).Write props(C03,C05,C07)
+//@   requires w != nil && w.r != nil && w.header != nil && canonKeys(w.header) && w.respChan != nil && !closed(w.respChan) && w.bodyReader != nil && w.bodyWriter != nil
+//@   ghost writes int = 0
+//@   ghost commits int = 0
+//@   call (*streamingResponseWriter).WriteHeader
+//@     assert[C03:implicit-200] !w.wroteHeader && arg0 == w && arg1 == 200 && writes == 0
+//@     do commits = commits + 1
+//@   call (*io.PipeWriter).Write
+//@     assert[C05:chunk-written-through] arg0 == w.bodyWriter && arg1 == bs && writes == 0
+//@     assert[C03:committed-before-body] w.wroteHeader
+//@     do writes = writes + 1
+//@   ensures[C05:one-pipe-write-per-chunk] writes == 1
+//@   ensures[C03:commit-only-if-needed] commits == ite(old(w.wroteHeader), 0, 1)
+
+// Close: end-of-body is signalled on the pipe exactly once and only after the trailers have been collected;
+// hop-by-hop names never become trailers (declared ones are filtered by WriteHeader, prefixed ones here).
+// Assumption (holds for httputil.ReverseProxy, the only handler the agent installs): the field name behind
+// http.TrailerPrefix is in canonical form.
+//@ pure prefixedCanon(h ref) bool = forall_str(k, in(k, h) && hasPrefix(k, "Trailer:") ==> canon(cutPrefix(k, "Trailer:")) == cutPrefix(k, "Trailer:"))
+//@ func (*streamingResponseWriter).Close props(C03,C07)
+//@   requires w != nil && w.r != nil && w.header != nil && canonKeys(w.header) && prefixedCanon(w.header) && w.respChan != nil && !closed(w.respChan) && w.bodyReader != nil && w.bodyWriter != nil && w.trailer != nil && w.trailer != w.header
+//@   requires w.wroteHeader ==> canonKeys(w.trailer) && forall_str(t, in(t, w.trailer) ==> !mayDrop(t))
+//@   ghost closes int = 0
+//@   call (*io.PipeWriter).Close
+//@     assert[C03:eof-after-trailers] closes == 0 && arg0 == w.bodyWriter
+//@     assert[C03:no-hop-by-hop-trailers] forall_str(t, mustDrop(t) ==> !in(t, w.trailer))
+//@     do closes = closes + 1
+//@   ensures[C03:body-closed-once] closes == 1
+//@   loop 1
+//@     assigns mapof(w.trailer)
+//@     invariant[C03:c1] w.trailer != nil && w.header != nil && w.trailer != w.header && w.bodyWriter == old(w.bodyWriter) && canonKeys(w.trailer) && canonKeys(w.header) && prefixedCanon(w.header) && closes == 0
+//@     invariant[C03:c1-nohop] forall_str(t, in(t, w.trailer) ==> !mayDrop(t))
+//@   loop 2
+//@     assigns mapof(w.trailer)
+//@     invariant[C03:c2] w.trailer != nil && w.header != nil && w.trailer != w.header && w.bodyWriter == old(w.bodyWriter) && canonKeys(w.trailer) && canonKeys(w.header) && prefixedCanon(w.header) && closes == 0 && in(k, w.trailer)
+//@     invariant[C03:c2-nohop] forall_str(t, in(t, w.trailer) ==> !mayDrop(t))
+//@   loop 3
+//@     assigns mapof(w.trailer)
+//@     invariant[C03:c3] w.trailer != nil && w.header != nil && w.trailer != w.header && w.bodyWriter == old(w.bodyWriter) && canonKeys(w.trailer) && canonKeys(w.header) && prefixedCanon(w.header) && closes == 0
+//@     invariant[C03:c3-nohop] forall_str(t, in(t, w.trailer) ==> !mayDrop(t))
+//@   loop 4
+//@     assigns mapof(w.trailer)
+//@     invariant[C03:c4] w.trailer != nil && w.header != nil && w.trailer != w.header && w.bodyWriter == old(w.bodyWriter) && canonKeys(w.trailer) && canonKeys(w.header) && prefixedCanon(w.header) && closes == 0 && canon(k) == k && !mayDrop(k)
+//@     invariant[C03:c4-nohop] forall_str(t, in(t, w.trailer) ==> !mayDrop(t))
